@@ -1525,6 +1525,8 @@ def fe_isar(case):
                "varsize": '<dimension size="%d" isVariableSize="true"/>' % m["n"],
                "varsize2": '<dimension size="%d" size2="%d" isVariableSize="true"/>' % (m["n"], m["aux"]),
                "varnamed": '<dimension isVariableSize="true" variableSizeFieldName="cnt_%s" variableSizeFieldType="u8"/>' % m["nm"],
+               "at": '<dimension variableSizeFieldName="@f1"/>',
+               "this": '<dimension size="THIS_IS_VARIABLE_SIZE_ARRAY"/>',
                }[m["dim"]]
         ms.append("<member %s>%s</member>" % (attrs, dim) if dim else "<member %s/>" % attrs)
     tag = "message" if case["inMessage"] else "struct"
@@ -1716,7 +1718,8 @@ def c17(tier, replay):
         "struct; TLC enumerates members x container x patch scripts and computes the target",
         "the target's legality and layout come from spec/Schema.tla + Layout.tla (TLC); illegal targets are counted and "
         "skipped; encodings use the vectors TLC generates for the target (spec/WireGiven.tla)",
-        "the '@sizer' and THIS_IS_VARIABLE_SIZE_ARRAY dimension forms and optional+dimension are not modelled"]
+        "modelled isar forms: plain, optional, size, size x size2, variable size (own counter, named/typed counter, with "
+        "size in struct vs message), '@sizer', THIS_IS_VARIABLE_SIZE_ARRAY, optional + dimension (explicit has_ enabler)"]
     cases = []
     res = run_tlc("Frontends", {}, invariants=["AbsentIgnored", "FDump"], spec="FSpec", prefix=("FE",),
                   on_line=lambda t, b: cases.append(json.loads(b)))
@@ -1724,6 +1727,10 @@ def c17(tier, replay):
     rnd = random.Random(seed())
     n = 900 if tier == "quick" else len(cases)
     pick = rnd.sample(cases, min(n, len(cases)))
+    if tier == "quick":
+        # the rarer isar forms are always represented
+        rare = [c for c in cases if any(m["dim"] in ("at", "this") or (m["opt"] and m["dim"] != "none") for m in c["ims"])]
+        pick += [c for c in rnd.sample(rare, min(150, len(rare))) if c not in pick]
     # targets: legality + layout from the specification
     envs, names = [], []
     for c in pick:
